@@ -11,6 +11,7 @@
 //   ordsorth <asc> <ops>     same through HArray<String<char>, SizeT64> directly
 //   ordloop <asc> <vals>     Template: <loop value="v" sort="...">{var:v},</loop> on an array of strings/naturals
 //                            -> rendered units
+//   orddeep <n> <reversed> <asc>  Array<SizeT>::Sort on sorted/reversed input of n elements -> ok (implementation only)
 // string token: units joined by '.', the empty string is "e".  value token: u | o<n>[x<tag>] | a<n>[x<tag>] |
 // s:<str> | n<nat> | i<int> | r<16 hex> | t | f | z | p<token>.  lists joined by ',', the empty list is "-".
 #include "common.hpp"
@@ -473,6 +474,17 @@ static std::string doLoop(bool asc, const std::string &list) {
     return vh::show_units(ss.First(), ss.Length());
 }
 
+// Memory::Sort recursion depth: already sorted / reversed input of n naturals (pivot = first element, so
+// one side of every partition is empty).  Not modelled (DESIGN §10); an observation on the real code.
+static std::string doDeep(unsigned n, bool reversed, bool asc) {
+    Array<SizeT> a;
+    for (unsigned i = 0; i < n; i++) a += SizeT(reversed ? n - i : i);
+    a.Sort(asc);
+    for (unsigned i = 1; i < n; i++)
+        if (asc ? (a.First()[i - 1] > a.First()[i]) : (a.First()[i - 1] < a.First()[i])) return "not-ordered";
+    return "ok";
+}
+
 int main() {
     std::string line;
     while (vh::read_line(line)) {
@@ -499,6 +511,8 @@ int main() {
             vh::emit(doSortO(t[1] == "1", t[2]));
         } else if (op == "ordsorth" && t.size() == 3 && (t[1] == "0" || t[1] == "1")) {
             vh::emit(doSortH(t[1] == "1", t[2]));
+        } else if (op == "orddeep" && t.size() == 4) {
+            vh::emit(doDeep(unsigned(strtoul(t[1].c_str(), nullptr, 10)), t[2] == "1", t[3] == "1"));
         } else if (op == "ordloop" && t.size() == 3 && (t[1] == "0" || t[1] == "1")) {
             vh::emit(doLoop(t[1] == "1", t[2]));
         } else {
